@@ -36,7 +36,10 @@ LF == [ NM |-> [ent |-> "0", type |-> "NodeManagement",       role |-> "special"
         S2 |-> [ent |-> "2", type |-> "LoadControl",          role |-> "server"],
         S3 |-> [ent |-> "2", type |-> "DeviceConfiguration",  role |-> "server"],
         \* a feature of the nested entity [1,1] that has the same feature number as S1 of its parent [1]
-        S4 |-> [ent |-> "1.1", type |-> "LoadControl",        role |-> "server"] ]
+        S4 |-> [ent |-> "1.1", type |-> "LoadControl",        role |-> "server"],
+        \* features of type Generic (a Generic feature matches every requested type - its role still has to fit)
+        G1 |-> [ent |-> "2", type |-> "Generic",              role |-> "client"],
+        G2 |-> [ent |-> "2", type |-> "Generic",              role |-> "server"] ]
 LocalNames == DOMAIN LF
 LocalUnknown == {"X19", "X91"}      \* unknown feature in known entity / unknown entity
 
@@ -47,10 +50,12 @@ LFn == [ S1 |-> [limit |-> [r |-> TRUE, w |-> TRUE], ldesc |-> [r |-> TRUE, w |-
          S4 |-> [limit |-> [r |-> TRUE, w |-> TRUE]],
          DC |-> [mfr   |-> [r |-> TRUE, w |-> FALSE]],
          K1 |-> << >>,
+         G1 |-> << >>,
+         G2 |-> << >>,
          NM |-> << >> ]          \* node management functions are handled by payload kind, not here
 \* functions registered for a feature type (CreateFunctionData) in this abstraction
 TypeFns == [ LoadControl |-> {"limit", "ldesc"}, DeviceConfiguration |-> {"kv", "kvdesc"},
-             DeviceClassification |-> {"mfr"}, NodeManagement |-> {} ]
+             DeviceClassification |-> {"mfr"}, NodeManagement |-> {}, Generic |-> {} ]
 DataFns == {"limit", "ldesc", "kv", "kvdesc", "mfr"}
 \* data cells that the configs vary
 Cell(s, fn) == s \o "." \o fn
@@ -64,7 +69,9 @@ RF == [ nm  |-> [ent |-> "0", type |-> "NodeManagement",      role |-> "special"
         c13 |-> [ent |-> "1", type |-> "DeviceConfiguration", role |-> "client"],
         s14 |-> [ent |-> "1", type |-> "LoadControl",         role |-> "server"],
         c21 |-> [ent |-> "2", type |-> "LoadControl",         role |-> "client"],
-        n11 |-> [ent |-> "1.1", type |-> "LoadControl",       role |-> "client"] ]   \* nested entity [1,1], feature 1
+        n11 |-> [ent |-> "1.1", type |-> "LoadControl",       role |-> "client"],
+        g15 |-> [ent |-> "1", type |-> "Generic",             role |-> "server"],
+        g16 |-> [ent |-> "1", type |-> "Generic",             role |-> "client"] ]   \* nested entity [1,1], feature 1
 RemoteNames == DOMAIN RF
 RemoteUnknown == {"x19", "x91"}
 REnts == {"0", "1", "2", "1.1"}
@@ -368,7 +375,8 @@ WriteOut(st, a) ==
                    {Ev("data", "write", a.p, "", a.c, a.s)}, "ok", Ideal) }
     ELSE { Outcome(st, OutTo(a.p, {ResErr(IF a.s \in LocalNames THEN a.s ELSE a.s, WDst(a))}), {}, "ok", Ideal) }
 
-\* local application changes data: a = [a |-> "setdata", s, fn, v]
+\* local application changes data: a = [a |-> "setdata", s, fn, v, how]   (how: through SetData, through UpdateData
+\* without filter, or through UpdateData with a plain partial filter - a change of the data whichever way it is made)
 SetDataOut(st, a) ==
     { Outcome([st EXCEPT !.data[Cell(a.s, a.fn)] = a.v], Fanout(st, a.s, a.fn, a.v), {}, "ok", Ideal) }
 
@@ -544,9 +552,9 @@ Acks(k) == IF R(k) THEN BOOLEAN ELSE {TRUE}
 DevVar(k) == IF R(k) THEN {"own", "omit"} ELSE {"own"}
 
 \* client / server argument domains for registry calls
-CliArgs(k) == IF R(k) THEN {"c11", "c12", "c13", "s14", "c21", "x19", "x91"}
+CliArgs(k) == IF R(k) THEN {"c11", "c12", "c13", "s14", "c21", "x19", "x91", "g15", "g16"}
               ELSE IF k \in Tiny THEN {"c11", "c12"} ELSE {"c11", "c12", "c21"}
-SrvArgs(k) == IF R(k) THEN {"S1", "S2", "S3", "S4", "K1", "NM", "X19", "X91"}
+SrvArgs(k) == IF R(k) THEN {"S1", "S2", "S3", "S4", "K1", "NM", "X19", "X91", "G1", "G2"}
               ELSE IF k \in Tiny THEN {"S1", "S2"} ELSE {"S1", "S2", "S3"}
 \* requested type: the server feature's own type, or (rich) a wrong one - a type nobody has, or the type of other
 \* features of the catalogue (so that the client may be of the declared type while the server is not)
@@ -613,20 +621,25 @@ Inputs(st) ==
     \cup On("listsubs",  {[a |-> "listsubs",  p |-> p, ack |-> k] : p \in DiscP(st), k \in Acks("listsubs")})
     \cup On("listbinds", {[a |-> "listbinds", p |-> p, ack |-> k] : p \in DiscP(st), k \in Acks("listbinds")})
     \cup On("write",  WriteArgsF(st))
-    \cup On("setdata", {[a |-> "setdata", s |-> CellS[c], fn |-> CellFn[c], v |-> v] : c \in Cells, v \in Vals})
+    \cup On("setdata", {[a |-> "setdata", s |-> CellS[c], fn |-> CellFn[c], v |-> v, how |-> h] : c \in Cells, v \in Vals,
+                           h \in (IF R("setdata") THEN {"set", "upd", "updp"} ELSE {"set"})})
     \cup On("read",   {[a |-> "read", p |-> p, c |-> c, s |-> s, fn |-> fn, ack |-> k] :
                          p \in DiscP(st), c \in (IF R("read") THEN {"c11", "s14", "x19"} ELSE {"c11"}),
                          s \in (IF R("read") THEN {"S1", "S2", "S3", "S4", "K1", "DC", "X19", "X91"} ELSE {"S1", "S2", "S4"}),
                          fn \in (IF R("read") THEN {"limit", "ldesc", "kv"} ELSE {"limit"}), k \in Acks("read")})
     \* classifier and payload are consistent: a result carries result data, a request does not (the rest is C05);
     \* discovery replies / notifications change the tree and are the inputs discover / entadd / entrem
-    \cup On("recv",   {x \in {[a |-> "recv", p |-> p, cls |-> cls, c |-> c, s |-> sd, pl |-> pl, v |-> 1, ack |-> k, ref |-> 0] :
+    \* ddev: the device part of the destination address names the local device, is omitted, or (rich) names another device
+    \* - the stack resolves the destination by entity and feature; whatever was given, a response names the local feature
+    \* with the local device address as its source
+    \cup On("recv",   {x \in {[a |-> "recv", p |-> p, cls |-> cls, c |-> c, s |-> sd, pl |-> pl, v |-> 1, ack |-> k, ref |-> 0, ddev |-> dd] :
                          p \in DiscP(st), cls \in {"read", "reply", "notify", "write", "call", "result"},
                          c \in (IF R("recv") THEN {"nm", "c11", "c13", "s14"} ELSE {"c11", "s14"}),
                          sd \in (IF R("recv") THEN {"NM", "DC", "S1", "S3", "S4", "K1", "X19", "X91"} ELSE {"NM", "S1", "S4", "K1", "X19"}),
                          pl \in (IF R("recv") THEN {"limit", "ldesc", "kv", "mfr", "res0", "res1", "usecase", "subdata", "binddata", "destlist", "discovery"}
                                   ELSE {"limit", "kv", "res0", "res1", "usecase", "subdata"}),
-                         k \in BOOLEAN} :
+                         k \in BOOLEAN, dd \in (IF R("recv") THEN {"own", "omit", "other"} ELSE {"own"})} :
+                       /\ (x.ddev # "own" => x.s \in LocalNames)
                        \* (rich: a result is never answered whatever it carries; a request that carries result data stays outside)
                        /\ (IF R("recv") THEN (x.pl \in ResultPls => x.cls = "result") ELSE (x.cls = "result") = (x.pl \in ResultPls))
                        /\ ~(x.pl = "discovery" /\ x.cls \in {"reply", "notify"})})
